@@ -72,6 +72,7 @@ class FakeNet:
             self.schedule.append(p)
         self._pi = 0
         self._sock_seq = 0
+        self.coalesce = True         # False: one recv never returns bytes of two separately queued replies
         self.hook = None             # optional callable(kind, sock) invoked at every socket event (scheduler yield point)
 
     # ---- configuration ----------------------------------------------------
@@ -378,6 +379,8 @@ class FakeSocket:
             got += take
             if take == len(chunk):
                 self.rx.popleft()
+                if not net.coalesce:
+                    break
             else:
                 self.rx[0][0] = chunk[take:]
         return b"".join(out)
